@@ -23,6 +23,14 @@ CHECKS = {
  "C03": ("model_checking", "6 C03",
          "The independent decoder IS the Tier-1 TLA+ reader: every stream the real serializer writes (model-generated inputs, all generic entry points) is decoded by /verif's own codec and validated row by row by TLC, including denotation = input.",
          "TLC trace validation of real serializer output against spec/JellyReader.tla; TLC model checking of PyWriter => reader never errs"),
+ "C04": ("model_checking", "6 C04",
+         "JellyProducer is the nondeterministic generator of exactly the row sequences the Tier-1 reader accepts (any slot/eviction choice, split, explicit-or-zero id, elision or not, early/redundant entries, repeated options, cuts, empty frames, "
+         "ids at the top of 4096-entry tables, disabled tables, versions 1-2); TLC simulates it, each behaviour carries its denotation, /verif's codec writes the bytes, and the six parse entry points must return exactly that denotation. Sampled, not exhaustive.",
+         "TLC simulation of spec/JellyProducer.tla (Tier-1 producer) replayed as bytes into the real parsers; denotation computed by TLC"),
+ "C16": ("fault_enumeration", "6 C16",
+         "One catalogued violation (12 classes) is injected by the producer model after FaultAt rows of an arbitrary legal stream; only rows the Tier-1 reader rejects at that very row qualify. Both integrations' flat parsers are drained item by item: "
+         "an exception must be raised and everything yielded before must be the denotation of the earlier rows.",
+         "TLC simulation of JellyProducer.Violate (fault injection confirmed invalid by the TLA+ reader) replayed into the real parsers"),
  "C05": ("model_checking", "6 C05",
          "Finite-state proof per size and rule on the index-canonical quotient model (closed under every next key, hence all histories), transferred to the code by walking the same state graph on real LookupEncoder/LookupDecoder objects: "
          "state and transition counts equal, transition sets equal for small sizes, every real transition judged by the table contract; long random histories for sizes 8..4096.",
@@ -62,7 +70,7 @@ m = {
    "enable": "no source hooks in /repo: recorders are installed from /verif by wrapping functions at run time; ./check sets JELLY_RDF_PYJELLY_VERIF=1 and PYTHONPATH=/repo so the working tree (not the compiled copy in /venv) is imported",
    "baseline_off_cmd": "cd /repo && /venv/bin/python -m pytest -ra -q -p no:cacheprovider --timeout=900 --continue-on-collection-errors; rc=$?; git -C /repo checkout -- tests/integration_tests/test_examples/temp; exit $rc",
    "source_commits": [],
-   "fix_commits": ["caaa11c", "ad129d3", "7027c39", "8dbb8a6"],
+   "fix_commits": ["caaa11c", "ad129d3", "7027c39", "8dbb8a6", "b731d1a", "a25bb8c", "e37ed0f"],
    "add_only": True,
  },
  "engines": [
